@@ -298,7 +298,10 @@ def _run(rep, tier, seed, focus, acts_for_sim):
         depth_focus = {"quick": 2, "thorough": 3}[tier]
         idx, ops = ["i0", "s02", "s_2", "srev", "mask"], ["add", "mul", "div"]
     # 1. focused exhaustive exploration, every transition replayed (quick: a stratified sample of 60 000)
-    recs = tlc_emit(rep, f"{focus}-bfs-depth{depth_focus}", FOCUS[focus], depth_focus, idx=idx, ops=ops)
+    # (thorough, alias focus: depth 3 is explored on seven objects - five of the pool and the first two a history creates;
+    # on the whole pool it has 52 million transitions)
+    recs = tlc_emit(rep, f"{focus}-bfs-depth{depth_focus}", FOCUS[focus], depth_focus, idx=idx, ops=ops,
+                    objs=[1, 4, 5, 7, 8, 11, 12] if (focus == "alias" and depth_focus == 3) else None)
     cap = 400000 if tier == "thorough" else 60000
     replay_records(rep, recs, focus, f"{focus}-bfs", sample_cap=cap, seed=seed)
     del recs
